@@ -220,7 +220,12 @@ fn check_exec(seed: u64, shard: u64, index: u64, rep: &mut Report) {
     let observe = format!("({}, *log)", names.iter().map(|n| n.as_str()).chain(["0"]).collect::<Vec<_>>().join(", "));
     let mut interp = Interpreter::with_stdlib();
     let setup = if pre_n == 0 { String::new() } else { format!("{PRELUDE}{pre}") };
-    match real::guarded(|| Code::parse(&interp, &setup).map(|c| c.exec_unscoped(&mut interp))) {
+    let set_up = real::guarded(|| {
+        real::arm(FUEL, real::DEFAULT_DEPTH);
+        Code::parse(&interp, &setup).map(|c| c.exec_unscoped(&mut interp))
+    });
+    simplesl::verif::set_fuel(u64::MAX);
+    match set_up {
         Ok(Ok(Ok(_))) => {}
         _ => {
             rep.count("exec:setup-not-accepted");
@@ -246,14 +251,30 @@ fn check_exec(seed: u64, shard: u64, index: u64, rep: &mut Report) {
     rep.distinct_case(&("exec", &setup, &text));
     let all_names: Vec<String> = names.iter().cloned().chain(["log".to_string()]).collect();
     // identity of what the interpreter holds: pointer of cells / functions, canonical value otherwise
+    // cells and functions by identity (their contents may legitimately change: they are shared), the rest by value
+    fn ident_value(v: &Variable, depth: usize) -> String {
+        if depth > 20 {
+            return "…".into();
+        }
+        match v {
+            Variable::Mut(c) => format!("cell@{:x}", Arc::as_ptr(c) as usize),
+            Variable::Function(f) => format!("fn@{:x}", Arc::as_ptr(f) as usize),
+            Variable::Array(a) => format!("[{}]", a.iter().map(|e| ident_value(e, depth + 1)).collect::<Vec<_>>().join(", ")),
+            Variable::Tuple(t) => format!("({})", t.iter().map(|e| ident_value(e, depth + 1)).collect::<Vec<_>>().join(", ")),
+            Variable::Struct(s) => {
+                let mut items: Vec<String> = s.iter().map(|(k, e)| format!("{k}={}", ident_value(e, depth + 1))).collect();
+                items.sort();
+                format!("struct{{{}}}", items.join(", "))
+            }
+            other => canon(other),
+        }
+    }
     let ident = |interp: &Interpreter| -> Vec<String> {
         all_names
             .iter()
             .map(|n| match interp.get_variable(n) {
                 None => format!("{n}:<unbound>"),
-                Some(Variable::Mut(c)) => format!("{n}:cell@{:x}", Arc::as_ptr(c) as usize),
-                Some(Variable::Function(f)) => format!("{n}:fn@{:x}", Arc::as_ptr(f) as usize),
-                Some(v) => format!("{n}:{}", canon(v)),
+                Some(v) => format!("{n}:{}", ident_value(v, 0)),
             })
             .collect()
     };
@@ -481,7 +502,7 @@ pub fn run(cfg: &Cfg, rep: &mut Report) {
             rep.notes.push(format!("host function not accepted: {src}"));
         }
     }
-    let n = cfg.per_shard(6_000, 400_000);
+    let n = cfg.per_shard(20_000, 800_000);
     for i in 0..n {
         if i % 8 == 0 {
             if deadline.over() {
@@ -497,7 +518,12 @@ pub fn run(cfg: &Cfg, rep: &mut Report) {
             let text: String = body.iter().map(|s| format!("{}; ", print_stm(s, Mode::Literal))).collect();
             let mut interp = Interpreter::with_stdlib();
             let full = format!("{PRELUDE}{text}");
-            if let Ok(Ok(Ok(_))) = real::guarded(|| Code::parse(&interp, &full).map(|c| c.exec_unscoped(&mut interp))) {
+            let ran = real::guarded(|| {
+                real::arm(FUEL, real::DEFAULT_DEPTH);
+                Code::parse(&interp, &full).map(|c| c.exec_unscoped(&mut interp))
+            });
+            simplesl::verif::set_fuel(u64::MAX);
+            if let Ok(Ok(Ok(_))) = ran {
                 for nme in &names {
                     if let Some(Variable::Function(f)) = interp.get_variable(nme) {
                         let f = f.clone();
